@@ -14,7 +14,9 @@ from . import fam_apps as A
 T3 = [["A", "B"], ["B", "C"], ["A", "C"]]
 
 GENESIS = copy.deepcopy(F.CORE)
-GENESIS.update(name="genesis", design=[],
+GENESIS.update(name="genesis",
+               design=[dict(role="intended", module="MCCore.tla", cfg="core_export_design.cfg",
+                            overrides_quick={"MaxSeq": "1"}, overrides_thorough={"MaxSeq": "2"})],
                gen=dict(module="MCCore.tla", cfgs=[("gen_core_export.cfg", 1.0)], quick=(24, 40), thorough=(240, 60)))
 GENESIS_APPS = copy.deepcopy(A.FAM)
 GENESIS_APPS.update(name="genesisapps", design=[],
